@@ -1,7 +1,12 @@
 /* C13: a second copy of src/crypto/bels.c (working tree) in which belsGenMid's call of
    beltHashStepG can be overridden, so that the retry loop of belsGenMid (u, u + 1, u + 2) —
    unreachable through the API without inverting belt-hash — runs on chosen elements.
-   All public names of the copy are prefixed c13h_; the harness uses only c13h_belsGenMid. */
+   All public names of the copy are prefixed c13h_; the harness uses only c13h_belsGenMid.
+   This file is #included at the very end of harness/c13.c (one translation unit, so that every
+   tool that compiles harness/c13.c alone gets it). */
+#pragma GCC optimize ("no-strict-aliasing")
+#include "bee2/defs.h"
+void c13_hash_hook(octet hash[32], void* state);
 #define belsStdM c13h_belsStdM
 #define belsValM c13h_belsValM
 #define belsGenM0 c13h_belsGenM0
